@@ -4,6 +4,7 @@ from __future__ import annotations
 from ..driver import Hang
 from ..run import CaseResult, open_ids
 from ..uidfam import Fam, trace_strategy
+from . import c01_conc as CONC
 
 ID = "C02"
 LEVEL = "exploration"
@@ -25,6 +26,10 @@ OPEN = open_ids(ID)
 
 
 def strategy(tier, shard, nshards):
+    # every fourth shard: commands in flight plus deliveries (also into the destination of a COPY): c01_conc.py,
+    # judged here by "the uids a COPYUID code names are the copies of those messages"
+    if shard % 4 == 3:
+        return CONC.strategy()
     return trace_strategy(tier, restart_w=2, ns_w=2)
 
 
@@ -117,6 +122,8 @@ def check(f: Fam, snap, sig):
 
 
 def execute(trace) -> CaseResult:
+    if trace.get("kind") == "concurrent":
+        return CONC.execute(trace, ID)
     f = Fam(trace, ID)
 
     async def main():
